@@ -20,7 +20,7 @@ CHECKS = {
         text="Theorems (Coq, every SIZE>=1, every CAPACITY>SIZE incl. CAPACITY=SIZE+1 and <2*SIZE, every push history): ArrayStorage, "
              "UnsafeArrayStorage and UnsafeVectorStorage simulate the abstract window lastn N h, so filled/empty/first/last/slice/vec/arr equal the spec "
              "after every push and the back-ends agree; UnsafeVectorStorage's copy_nonoverlapping never overlaps for multiple>=2. Safe VectorStorage: proved up to the "
-             "capacity, refuted beyond (known finding D6). Model tied to the four storages by differential runs after every push (release, unsafe release, unsafe debug builds).",
+             "capacity, refuted beyond (known finding D6). Model tied to the four storages by differential runs after every push (release, unsafe release, unsafe debug builds). LARGE windows (thousands of elements, many rewinds; byte counts above 64 KiB) are judged by the closed form window_is_last_n, which is a theorem for every size.",
         note=LEVEL_NOTE_COMMON + "Axioms: none. copy_within/ptr::copy modelled as list memmove; the 16-byte chunk loop of the unsafe array as one memmove "
              "(exercised with 1/2/4/8/12/16-byte element types). VectorStorage beyond capacity is a listed known finding (test-pinned defect).",
         technique="Coq proof (simulation relation to lastn N h, induction over push histories) + model/implementation differential correspondence",
@@ -57,7 +57,7 @@ CHECKS = {
              "an accepted Some(p) starts at s, ends at t, follows existing edges in direction and no path of any length is lighter; an accepted None means an end is absent or t "
              "is unreachable. Every answer of the implementation for every ordered pair of every generated graph (built through add/remove histories, cycles, zero weights, ties) "
              "is validated by the extracted checker on the specification graph of the run. The checker is also COMPLETE (Graph/BellmanFord.v): its reference distances are closed after |nodes| rounds for every graph "
-             "whose edges join nodes (every graph the store model can reach), so it accepts every minimum-weight path and every correct None: it decides the property exactly. Edge weights up to 2^64-1 (path sums beyond u64: defect D12, fixed).",
+             "whose edges join nodes (every graph the store model can reach), so it accepts every minimum-weight path and every correct None: it decides the property exactly. Edge weights up to 2^64-1 (path sums beyond u64: defect D12, fixed). LONG paths (chains of 259 .. 2051 edges beside short-cuts heavier by exactly 1), beyond what the extracted checker labels in reasonable time, are judged against the optimum known by construction.",
         note=LEVEL_NOTE_COMMON + "Axioms: none. The unbounded theorem is about the checker; the implementation is covered per explored input (translation validation). "
              "Soundness and completeness of the checker are both theorems.",
         technique="Coq-proved sound and complete optimality checker (closed-labelling argument; Bellman-Ford convergence by simple-walk extraction) applied to every implementation answer (translation validation)",
@@ -76,7 +76,7 @@ CHECKS = {
              "complementary filters partition the collection; counts are counts and percentages are count/size on the documented scale (as binary64 expressions); the all-X loops are "
              "conjunctions; no member is both inferable and inverse-inferable (so non-inferable is always empty); an assumption is tested from its first verification on, valid only "
              "after a verification returned true, and verify returns the function's verdict. The member predicates (total_cmp, truncating 4-decimal comparison, >=, ==) are modelled "
-             "on binary64 with SpecFloat and correspondence-tested on boundary values; the oracle recomputes every aggregate from the member predicates the implementation reports.",
+             "on binary64 with SpecFloat and correspondence-tested on boundary values; the oracle recomputes every aggregate from the member predicates the implementation reports. Collections of more than 65 536 members, one per counted class in which 99 % of the members belong to that class (so that every count passes 65 536), in the Vec container (thorough: all containers).",
         note=LEVEL_NOTE_COMMON + "Axioms: none for all theorems but two: C18_all_satisfy_gives_exactly_100 / C18_none_satisfies_gives_exactly_0 (percentage exactly 100 / 0 for every collection of 1..2^64 members) use Flocq's specification of IEEE division and depend on the standard library's classical real-number axioms ClassicalDedekindReals.sig_not_dec, ClassicalDedekindReals.sig_forall_dec, FunctionalExtensionality.functional_extensionality_dep, Classical_Prop.classic (Print Assumptions; allow-list of this check). binary64 via Coq.Floats.SpecFloat (pure Z arithmetic); NaN payloads not represented.",
         technique="Coq proof (list-level counting laws, induction over verification histories) + differential correspondence on boundary floats + law checker as oracle",
         design="§7 C18"),
@@ -85,7 +85,7 @@ CHECKS = {
              "reasoning returns true exactly when every causaloid reachable from the start evaluates true, false when one is false and none errors, and error-or-false (never true) when a "
              "reachable causal function errors. The model is the code's traversal (children in ascending index order, no visited set, stop index = node count); it is tied to the code by "
              "comparing verdict, the exact sequence of causal-function calls with their observations, and is_active of every node; the oracle is an independent closure-based conjunction. "
-             "A concurrent phase (two threads reasoning at the same time over one shared graph with different data, 10^6 calls per run) requires every verdict to be the model's verdict for that thread's data (stress, schedule chosen by the OS).",
+             "A concurrent phase (two threads reasoning at the same time over one shared graph with different data, 10^6 calls per run) requires every verdict to be the model's verdict for that thread's data (stress, schedule chosen by the OS). LARGE graphs (chains of 65 .. 1200 causaloids with a single false member at a chosen index or none, also through a wrapping causaloid; graphs of 70 000 / 140 000 causaloids whose reachable part is small) are judged by the closed form the theorem gives for them (the conjunction; number of evaluations), and every observation carries big-index alias probes (i + 2^16, i + k*2^32 must not address member i).",
         note=LEVEL_NOTE_COMMON + "Axioms: none. Termination (acyclicity) enters as 'the run does not exhaust its fuel'. The explicit iterator stack is modelled as recursion.",
         technique="Coq proof (induction on the traversal, reachability closure) + differential correspondence incl. call log + extracted reachability oracle",
         design="§7 C01"),
@@ -93,14 +93,14 @@ CHECKS = {
         text="Theorems (Coq, every nesting tree of singletons / collections / graphs, any depth and fan-out, every observation vector): a wrapping causaloid evaluates as direct reasoning "
              "over what it wraps (collection: positional data, graph: from the root), in every position; for every run the verdict is the conjunction of the singleton verdicts it "
              "evaluated (true: all true; false: last false, all earlier true); a contextual singleton is evaluated against exactly its own context. Correspondence on generated trees to "
-             "depth 4 incl. the call log; oracles: trace-conjunction and wrapped == direct on the implementation's own output.",
+             "depth 4 incl. the call log; oracles: trace-conjunction and wrapped == direct on the implementation's own output. Long chains (65 .. 1200 causaloids) also evaluated through a wrapping causaloid, and graphs of 70 000 causaloids, against the closed-form conjunction.",
         note=LEVEL_NOTE_COMMON + "Axioms: none. Causal functions are a fixed family of fn items whose verdict is decided by the observation; relational oracles are Python.",
         technique="Coq proof (induction on fuel over a task-indexed evaluator of the nested inductive model) + differential correspondence incl. call log",
         design="§7 C02"),
     "C10": dict(
         text="Theorems (Coq): given the path the graph's shortest-path routine returns, reasoning evaluates exactly the causaloids of the path prefix up to and including the first non-true "
              "verdict, in path order, each on its routed observation; the result is the conjunction; all other activation cells are unchanged; the four error cases. The path itself is "
-             "validated per input by C15's proved optimality checker; the extracted checker recomputes the whole call on the model with that path and compares verdict, call log and activation.",
+             "validated per input by C15's proved optimality checker; the extracted checker recomputes the whole call on the model with that path and compares verdict, call log and activation. Long chains (large graphs) with a closed-form answer are part of every run.",
         note=LEVEL_NOTE_COMMON + "Axioms: none. petgraph astar not modelled (validated per input, C15).",
         technique="Coq proof (induction over the path) + proved path checker (C15) + model recomputation on the returned path as oracle",
         design="§7 C10"),
@@ -127,7 +127,7 @@ CHECKS = {
              "the table EQUAL and nothing evaluated or fired, otherwise they act as map insert / delete / replace; evaluating a registered state fires exactly its current action once when the "
              "causaloid evaluates true, nothing when false, and errors (nothing fired) when the evaluation fails, also erroring when the fired action fails; evaluating all states along any "
              "iteration order: success = every state evaluated once and exactly the actions of the true states fired; failure = a successful prefix plus the failing state. The extracted "
-             "checker (proved sound, and proved to accept the model) validates every observed operation, accepting an eval_all outcome iff SOME iteration order of the registered ids yields it.",
+             "checker (proved sound, and proved to accept the model) validates every observed operation, accepting an eval_all outcome iff SOME iteration order of the registered ids yields it. A concurrent phase (two state machines sharing one causaloid, evaluated at the same time on two threads with opposite data, 5*10^5 evaluations) requires that the machine whose data is true fires every time and the other never (stress, schedule chosen by the OS).",
         note=LEVEL_NOTE_COMMON + "Axioms: none. States / actions are pooled fn items of the harness with observable firing; HashMap iteration order is existentially quantified.",
         technique="Coq proof (map laws, induction over the iteration order, checker soundness) + proved checker applied to every observed operation",
         design="§7 C03"),
@@ -136,7 +136,7 @@ CHECKS = {
              "a handler handles the successor of the last sequence it returned from (in order, exactly once, no gaps), only sequences that are completely written and covered by the producer cursor, and "
              "what it sees is intact (slot not re-used, all earlier stages done with it, no later stage touched it); sequence 0 is never delivered (known finding D7). The per-thread programs of the "
              "real code are tied to the model by TRACE VALIDATION: the extracted acceptors (Disruptor/Threads.v) must accept every logged trace operation for operation (kind, location, ordering, "
-             "operand, control flow), AND every logged trace is replayed on the proof models themselves (Disruptor/PipeReplay.v on Pipeline.v, Disruptor/MultiReplay.v on MultiPub.v: each logged operation must be an enabled step of the model in the state reached, with the model's value; replay_sound: an accepted trace ends in a reachable model state, so the theorems apply to the execution just observed). The same facts hold without the atomic-snapshot abstraction and with stale loads (Disruptor/HB.v, hb_delivery). Multi producer under true concurrency (Disruptor/MultiPub.v): everything at or below the cursor - consumers never pass it - is completely written and published, in every interleaving. MULTI-PRODUCER PIPELINES OF ANY TOPOLOGY (Disruptor/MultiPipe.v = MultiPub.v composed with the handler side Handlers.v over any barrier stages; every execution projects to an execution of each component): a handler handles i only if its claimant has published i, i is the successor of what it returned from last, and no producer has claimed the next lap of that slot; logged multi-producer executions are replayed on this product model (Disruptor/MultiPipeReplay.v, accepted => reachable). Monitors on every explored schedule check the property on the implementation itself; multi-producer DELIVERY of everything published is violated (stranding = known finding D8).",
+             "operand, control flow), AND every logged trace is replayed on the proof models themselves (Disruptor/PipeReplay.v on Pipeline.v, Disruptor/MultiReplay.v on MultiPub.v: each logged operation must be an enabled step of the model in the state reached, with the model's value; replay_sound: an accepted trace ends in a reachable model state, so the theorems apply to the execution just observed). The same facts hold without the atomic-snapshot abstraction and with stale loads (Disruptor/HB.v, hb_delivery). Multi producer under true concurrency (Disruptor/MultiPub.v): everything at or below the cursor - consumers never pass it - is completely written and published, in every interleaving. MULTI-PRODUCER PIPELINES OF ANY TOPOLOGY (Disruptor/MultiPipe.v = MultiPub.v composed with the handler side Handlers.v over any barrier stages; every execution projects to an execution of each component): a handler handles i only if its claimant has published i, i is the successor of what it returned from last, and no producer has claimed the next lap of that slot; logged multi-producer executions are replayed on this product model (Disruptor/MultiPipeReplay.v, accepted => reachable). Monitors on every explored schedule check the property on the implementation itself; multi-producer DELIVERY of everything published is violated (stranding = known finding D8). The ring's slot mapping (sequence s <-> slot s mod N, through get and get_mut) is probed directly for rings of 2 .. 262 144 slots, one probe per index bit.",
         note=LEVEL_NOTE_COMMON + "Axioms: none. " + "the deterministic scheduler hooks (cfg deepcausality_rs_deep_causality_verif) make every atomic / mutex / condvar operation and slot access of the real code a scheduling point and log it with its real Ordering; Reading several cursors is abstracted to one step returning any value not above the current values (sound by monotonicity). "
              "Multi-producer delivery is explored, not proved; C11 stale reads are not explored.",
         technique="Coq proof (inductive invariant over a small-step interleaving model) + trace validation of the hooked implementation under a deterministic scheduler + trace monitors",
@@ -150,7 +150,7 @@ CHECKS = {
              "operations per thread) is pinned by trace validation on every explored execution; an independent vector-clock race detector over the Ordering arguments the code REALLY passed runs on "
              "every explored schedule too. MULTI PRODUCER under true concurrency (Disruptor/MultiPub.v + MultiPubHB.v: any number of producers and first-stage consumers, every atomic operation a step, stale cursor "
              "loads): a producer fills a slot only when every consumer is done with its previous occupant, a consumer about to touch sequence i is ordered after every fill made so far to that slot, and a "
-             "producer about to fill is ordered after every consumer access and every fill made so far to that slot. Value level for ANY topology (Disruptor/MultiPipe.v): while a producer fills its claim, every handler of every stage has returned from the previous occupant of each slot. Same-stage mutable handlers race: known finding D9 (excluded from the theorem by stage g <> stage h).",
+             "producer about to fill is ordered after every consumer access and every fill made so far to that slot. Value level for ANY topology (Disruptor/MultiPipe.v): while a producer fills its claim, every handler of every stage has returned from the previous occupant of each slot. Same-stage mutable handlers race: known finding D9 (excluded from the theorem by stage g <> stage h). The ring's slot mapping (two sequences share a slot iff they are congruent modulo N) is probed directly for rings of 2 .. 262 144 slots.",
         note=LEVEL_NOTE_COMMON + "Axioms: none. Release/acquire semantics are modelled as knowledge transfer (one writer per cursor, so no release sequences are needed); multi-producer happens-before is proved for producers + first-stage consumers (each ready bit its own location: the code packs 64 per word, which only adds synchronisation); later stages of a multi-producer pipeline are monitored per execution. C11 stale reads are not explored by the scheduler (the proof does not depend on read freshness beyond monotone lower bounds... in HB.v loads return the current value).",
         technique="Coq proof (inductive invariants over a per-cursor-read interleaving model with happens-before knowledge) + trace validation of orderings + vector-clock race detection on scheduler-controlled executions",
         design="§7.R C05"),
@@ -168,14 +168,14 @@ CHECKS = {
              "complete is a violation with the schedule as replay). What stays PARTIAL: a spinning or parked thread is modelled as a thread whose step is not enabled (the link parked-and-condition-true => woken is (a) and (c)), "
              "fairness of the OS scheduler is assumed, and the multi-producer pipeline has no termination theorem (it does not terminate: finding D8). Termination is also explored on every run - the "
              "scheduler reports all-finished vs deadlock vs budget exhausted vs panic - for spin and blocking strategies, zero-event pipelines, tiny rings. Found and fixed: drain of an unused single "
-             "producer (D5), stale-watermark underflow (D10). Multi-producer stall: known finding D8.",
+             "producer (D5), stale-watermark underflow (D10). Multi-producer stall: known finding D8. REAL-TIME idle probes (plain build, OS threads): a pipeline left idle for seconds (spin and blocking strategies) must still deliver a further batch and drain / join must return - a wait strategy that gives up after many polls only shows there.",
         note=LEVEL_NOTE_COMMON + "Axioms: none. " + "the deterministic scheduler hooks (cfg deepcausality_rs_deep_causality_verif) make every atomic / mutex / condvar operation and slot access of the real code a scheduling point and log it with its real Ordering; Termination is proved on the spin-style model for the single producer (every run finite, stuck only when complete) and explored otherwise; the progress theorems are on the spin-style model (a blocked thread is a thread whose step is not enabled), the blocking strategy's parking is covered by (a).",
         technique="Coq proof (no-lost-wake-up invariant; progress theorems; termination by a strictly decreasing potential + no stuck state but the complete one) + replay of logged executions on the termination model + scheduler-controlled exploration",
         design="§7.R C06"),
     "C13": dict(
         text="Theorems (Coq, same pipeline model): a stage-(k+1) handler handles sequence i only after EVERY stage-k handler returned from i; it sees the modifications of all earlier stages and "
              "none of later ones while the slot is not re-used; gating the producer on the last stage only suffices because the last stage is the slowest (no handler of any stage is lapped). The same stage-order theorems hold for MULTI-PRODUCER pipelines of any topology (Disruptor/MultiPipe.v: multi-producer sequencer under true concurrency composed with the handler stages). "
-             "Trace validation, replay of every logged execution on the proof model (Disruptor/PipeReplay.v: accepted => reachable state of Pipeline.v, theorem replay_sound) and monitors (stage order, overwrite) on every explored schedule.",
+             "Trace validation, replay of every logged execution on the proof model (Disruptor/PipeReplay.v: accepted => reachable state of Pipeline.v, theorem replay_sound) and monitors (stage order, overwrite) on every explored schedule. The ring's slot mapping (sequence s <-> slot s mod N, through get and get_mut) is probed directly for rings of 2 .. 262 144 slots, one probe per index bit.",
         note=LEVEL_NOTE_COMMON + "Axioms: none. " + "the deterministic scheduler hooks (cfg deepcausality_rs_deep_causality_verif) make every atomic / mutex / condvar operation and slot access of the real code a scheduling point and log it with its real Ordering; ",
         technique="Coq proof (cursor chain along the stages, inductive invariant) + trace validation + trace monitors under a deterministic scheduler",
         design="§7.R C13"),
